@@ -2,4 +2,7 @@
 
 
 def classify(w):
+    tail = w.get("what", "").split("] ", 1)[-1]
+    if tail.startswith("after solve_ode_system: evaluate_") and "raises KeyError: 't'" in tail:
+        return "evaluators_raise_keyerror_t_after_solve_ode_system"
     return None
